@@ -937,6 +937,15 @@ func (e *Engine) instrShape(ins ssa.Instruction) []string {
 		} else if _, isB := c.Value.(*ssa.Builtin); !isB {
 			out = append(out, "calldyn "+dynNameOf(c.Value))
 		}
+	case *ssa.UnOp:
+		if fa, ok := i.X.(*ssa.FieldAddr); ok && i.Op == token.MUL {
+			st := fa.X.Type().Underlying().(*types.Pointer).Elem()
+			name := st.String()
+			if n, ok := st.(*types.Named); ok {
+				name = n.Obj().Name()
+			}
+			out = append(out, "load "+name+"."+st.Underlying().(*types.Struct).Field(fa.Field).Name())
+		}
 	case *ssa.Store:
 		if fa, ok := i.Addr.(*ssa.FieldAddr); ok {
 			st := fa.X.Type().Underlying().(*types.Pointer).Elem()
